@@ -53,6 +53,8 @@ var programs = []program{
 	{"shared-file", "task A(\"a.txt\") {\n echo a\n}\ntask B(\"a.txt\") {\n echo b\n}\n", []string{"A", "B"}, map[string][]string{"A": {"a.txt"}, "B": {"a.txt"}}},
 }
 
+var smallOps = []string{"edit:a.txt", "revert:a.txt", "run:A", "run:A,B", "force:A", "fail:A", "rmcache"}
+
 var ops = []string{"edit:a.txt", "revert:a.txt", "edit:b.txt", "run:A", "run:B", "run:A,B", "force:A", "force:A,B", "fail:A", "unfail:A", "rmcache", "add:c.txt", "del:c.txt"}
 
 type world struct {
@@ -229,6 +231,9 @@ func main() {
 		fmt.Printf("ok program=%s history=%v\n", prog.name, os.Args[4:])
 	case "search":
 		depth, _ := strconv.Atoi(os.Args[3])
+		if len(os.Args) > 4 && os.Args[4] == "small" {
+			ops = smallOps
+		}
 		type job struct {
 			p    program
 			hist []string
